@@ -263,7 +263,9 @@ def St.closePeer (s : St) (k : Nat) : St :=
     let s := { s with peers := s.peers.filter (·.k ≠ k), mayStart := s.mayStart.filter (· ≠ k),
                       idls := s.idls.filter (·.k ≠ k),
                       unchoked := s.unchoked.filter (· ≠ k), optimistic := s.optimistic.filter (· ≠ k) }
-    s.startDls
+    -- startPieceDownloaders (fix C10-F1), startInfoDownloaders (fix C13-F2)
+    let s := s.startDls
+    if s.errC && !s.info then { s with mayStartI := true } else s
 
 def St.writeBitfield (s : St) : St :=
   match s.bf with
